@@ -138,6 +138,36 @@ Definition l_gt n a b := l_lt n b a.
 Definition l_ge n a b := l_le n b a.
 Definition l_ne n a b := negb (l_eq n a b).
 
+
+(* ---- conversion from a native value (C03): "the nearest value in the logarithmic domain, or its neighbour when the source is within a
+   few double ulps of a log-domain midpoint".  x = 2^i0 * x' with x' in [1,2); the midpoints around an exponent Ec are
+   2^((2 Ec -+ 1)/2^(r+1)); tolerance eps = (|i0| + 2) 2^-50 (the library takes log2 in double precision: the error of the logarithm in
+   units of x grows with |log2 x|).  Like l_add_accept this only rejects what is certainly wrong (certified enclosures). ---- *)
+Definition l_conv_accept (n r : Z) (sat : bool) (x : num) (c : Z) : bool :=
+  match x with
+  | NaN => Z.eqb c (l_encode n LNaN)
+  | Inf s => Z.eqb c (l_encode n (LVal s (l_emax n))) || Z.eqb c (l_encode n LNaN)
+  | Fin s q =>
+      if Qeq_bool q 0 then Z.eqb c (l_encode n LZero) else
+      let r' := r + 1 in let roots := lns_roots r' in
+      let i0 := qlog2 (Qnum q) (Zpos (Qden q)) in
+      let x' := (q * pow2Q (- i0))%Q in
+      let eps := (inject_Z (Z.abs i0 + 2) * pow2Q (-50))%Q in
+      let xup := (x' * (1 + eps))%Q in let xdn := (x' * (1 - eps))%Q in
+      let P (m : Z) := pow2_enc_r roots r' (m - i0 * 2^r') in
+      (* certainly below / above a midpoint *)
+      let below (m : Z) := negb (Qle_bool (fst (P m)) xup) in        (* x (1+eps) < lo(P m) *)
+      let above (m : Z) := negb (Qle_bool xdn (snd (P m))) in        (* x (1-eps) > hi(P m) *)
+      let inrange := negb (below (2 * l_emin n - 1)) && negb (above (2 * l_emax n + 1)) in
+      match l_decode n c with
+      | LNaN => negb sat && negb inrange
+      | LZero => if sat then negb (above (2 * l_emin n - 1)) else negb inrange
+      | LVal sc Ec =>
+          let ok := Bool.eqb sc s && negb (below (2 * Ec - 1)) && (Z.eqb Ec (l_emax n) && sat || negb (above (2 * Ec + 1))) in
+          if sat then ok else (if inrange && negb (above (2 * l_emax n - 1)) && negb (below (2 * l_emin n + 1)) then ok else true)
+      end
+  end.
+
 Definition judge_lns (cfg : list Z) (op : Z) (args res : list Z) : verdict :=
   let n := nth0 cfg 0 in let r := nth0 cfg 1 in let sat := Z.eqb (nth0 cfg 2) 1 in
   let a := nth0 args 0 in let b := nth0 args 1 in let c := nth0 res 0 in
@@ -149,6 +179,10 @@ Definition judge_lns (cfg : list Z) (op : Z) (args res : list Z) : verdict :=
   if Z.eqb op OP_div then exact [l_div n sat a b]
       (special || match l_decode n a, l_decode n b with LVal _ Ea, LVal _ Eb => ovf (Ea - Eb) | _, _ => false end) else
   if Z.eqb op OP_neg then exact [l_neg n a] true else
+  let conv (x : num) := mkV (Z.eqb (Z.of_nat (length res)) 1 && l_conv_accept n r sat x c) [] true in
+  if Z.eqb op OP_from_f64 then conv (f64_decode a) else if Z.eqb op OP_from_f32 then conv (f32_decode a) else
+  if Z.eqb op OP_from_int then conv (num_of_Q (inject_Z (int_decode true a b))) else
+  if Z.eqb op OP_from_uint then conv (num_of_Q (inject_Z (int_decode false a b))) else
   let rel (v : bool) := exact [if v then 1 else 0] true in
   if Z.eqb op OP_eq then rel (l_eq n a b) else if Z.eqb op OP_ne then rel (l_ne n a b) else
   if Z.eqb op OP_lt then rel (l_lt n a b) else if Z.eqb op OP_le then rel (l_le n a b) else
